@@ -16,7 +16,7 @@ from props import toycipher, toyecc
 from props import bf3common as B
 from props import bec2common as C
 
-GEN_DEPS = ("Consts.v", "gen_consts", "Crc.v", "gen_crc")
+GEN_DEPS = ("Consts.v", "gen_consts", "Crc.v", "gen_crc", "TagTypes.v", "gen_tagtypes")
 MODEL_TARGETS = ["Model/Bec2.vo", "Model/Bec2Eq.vo", "Model/Bf3Eq.vo", "Model/Cbc.vo"]
 IMPORTS = C.IMPORTS
 
